@@ -13,3 +13,37 @@ package pixelbt
 //@   ghostmodifies n_fo, fo_id, fo_origin, fo_v, fo_w
 //@   ensures[C12.feed] n_fo <= old(n_fo) + 1
 //@   ensures[C12.feed] n_fo == old(n_fo) + 1 ==> fo_id == l.ID && fo_origin == l.Origin && fo_v == l.Verifier && fo_w == w
+
+//@ func FeedLog$2
+//@   returns (p, err)
+//@   let toSize   := to.Size
+//@   let fromSize := from.Size
+//@   prefer to.Size < 9223372036854775808 && from.Size >= 1 && from.Size <= 8
+//@   requires c != nil && lURL != nil
+//@   modifies heap
+//@   ensures[C19.s] err != nil ==> p == nil
+//@   invariant#1 0 <= $i && $i <= len(proof) && r != nil
+//@   decreases#1 len(proof) - $i
+
+//@ func FeedLog$1
+//@   returns (b, err)
+//@   requires c != nil && lURL != nil
+//@   modifies heap
+//@   ensures[C19.s] true
+
+// tlog.TileHashReader only asks for tiles of the reader's own height (8), so t.H is never negative.
+//@ func (tileReader).ReadTiles
+//@   returns (r, err)
+//@   requires tr.fetch != nil
+//@   requires forall j int :: 0 <= j && j < len(tiles) ==> tiles[j].H >= 0
+//@   modifies heap
+//@   ensures[C19.s] err != nil ==> r == nil
+//@   invariant#1 0 <= $i && $i <= len(tiles)
+//@   invariant#1 forall j int :: 0 <= j && j < len(tiles) ==> tiles[j].H >= 0
+//@   decreases#1 len(tiles) - $i
+
+//@ func fetch
+//@   returns (b, err)
+//@   requires c != nil && base != nil
+//@   modifies heap
+//@   ensures[C19.s] true
